@@ -165,9 +165,12 @@ func (e *Engine) findIndicesNFA(haystack []byte) (int, int, bool) {
 				return start, end, true
 			}
 
-			// Move past this position
+			// The verification above is an UNANCHORED search from the candidate to
+			// the end of the haystack: when it fails there is no match at or after
+			// pos at all. Trying the next candidate would rescan the same suffix
+			// (quadratic on inputs full of false candidates, e.g. b(?m:^) on "bbbb…").
 			atomic.AddUint64(&e.stats.PrefilterMisses, 1)
-			at = pos + 1
+			return -1, -1, false
 		}
 		return -1, -1, false
 	}
@@ -215,8 +218,9 @@ func (e *Engine) findIndicesNFAAt(haystack []byte, at int) (int, int, bool) {
 				return start, end, true
 			}
 
+			// Unanchored verification failed: no match at or after pos (see findIndicesNFA).
 			atomic.AddUint64(&e.stats.PrefilterMisses, 1)
-			at = pos + 1
+			return -1, -1, false
 		}
 		return -1, -1, false
 	}
@@ -1196,8 +1200,9 @@ func (e *Engine) findIndicesNFAAtWithState(haystack []byte, at int, state *Searc
 				return start, end, true
 			}
 
+			// Unanchored verification failed: no match at or after pos (see findIndicesNFA).
 			atomic.AddUint64(&e.stats.PrefilterMisses, 1)
-			at = pos + 1
+			return -1, -1, false
 		}
 		return -1, -1, false
 	}
